@@ -87,6 +87,22 @@ def contracts():
         loops={2: dict(invariant=['i % 2 == 1', '1 <= i <= len(sub_parts)',
                                   'same(path_t.__ops__, path_t__entry.__ops__ + sub_parts[1:i])', 'len(path_t.__ops__) >= 1',
                                   'path_t.__ops__[0] is T'], pure=True)}))
+    # the other shapes of Path(...): no parts -> the root T itself; a non-T part -> one 'P' step holding that very object; a T part not rooted at T is rejected
+    TT = ['len(T.__ops__) == 1', 'T.__ops__[0] is T']
+    cs.append(Post('core.Path.__init__', helpers='h_path', label='core.Path.__init__[shapes]', cases=[
+        Case('empty', args={'self': 'inst:core.Path', 'path_parts': 'tuple:'}, requires=TT, ensures=['self.path_t is T']),
+        Case('one-part', args={'self': 'inst:core.Path', 'path_parts': 'tuple:ref'}, requires=TT + ['type(path_parts[0]) is not Path', 'type(path_parts[0]) is not TType',
+                                                                                                   'not isinstance(path_parts[0], Path)', 'not isinstance(path_parts[0], TType)'],
+             ensures=["same(ops(self), (T, 'P', path_parts[0]))"]),
+        Case('text-parts', args={'self': 'inst:core.Path', 'path_parts': 'tuple:str,int'}, requires=TT,
+             ensures=["same(ops(self), (T, 'P', path_parts[0], 'P', path_parts[1]))"]),
+        Case('bad-root', args={'self': 'inst:core.Path', 'path_parts': 'tuple:str,inst:core.TType'},
+             requires=TT + ['len(path_parts[1].__ops__) >= 1', 'path_parts[1].__ops__[0] is S'], ensures=['False'], raises={'ValueError': 'True'})]))
+    cs.append(Post('core.Path.startswith', helpers='h_path', label='core.Path.startswith[text]', cases=[
+        Case('text', args={'self': 'inst:core.Path', 'other': 'str'}, requires=TT,
+             ensures=["result == (ops(self)[:3] == (T, 'P', other))"])]))
+    cs.append(Post('core._format_slice', label='core._format_slice[not-a-slice]', cases=[
+        Case('int', args={'x': 'int'}, ensures=['result == bbrepr(x)'])]))
     return cs
 
 
